@@ -30,7 +30,7 @@ namespace {
 
 const char *k_tmpl[] = {"harm_fixed", "harm_cmove", "harm_kmove", "walls_fixed", "linear_fixed", "meta_grid", "abf", "histogram", "harm_cmove", "harm_fixed", "harm_cstage"};
 
-struct CvOut { std::string name; bool periodic = false; bool vel = false, ft = false, fa = false; bool runave = false; int ra_len = 0, ra_stride = 1; bool cf = false, cf_norm = false; int cf_len = 0, cf_stride = 1; std::string cf_with; };
+struct CvOut { std::string name; bool periodic = false; bool vel = false, ft = false, fa = false; bool runave = false; int ra_len = 0, ra_stride = 1; bool cf = false, cf_norm = false, cf_vel = false; int cf_len = 0, cf_stride = 1; std::string cf_with; };
 
 J gen(uint64_t seed, bool thorough) {
   Rng r(seed, 19);
@@ -68,8 +68,9 @@ J gen(uint64_t seed, bool thorough) {
     int cf_len = (int)r.range(2, 6), cf_stride = (int)r.range(1, 3); bool cf_norm = r.chance(0.5);
     // (the partner of a cross-correlation must already exist when this variable is defined: an earlier non-periodic one)
     std::string cf_with; if (cf && i > 0 && r.chance(0.3)) { for (int q = 0; q < i; q++) if (!cvs[(size_t)q].periodic()) cf_with = cvs[(size_t)q].name; }
-    if (cf) { c.extra += "  corrFunc on\n  corrFuncType coordinate\n  corrFuncLength " + std::to_string(cf_len) + "\n  corrFuncStride " + std::to_string(cf_stride) + "\n  corrFuncNormalize " + (cf_norm ? "on" : "off") + "\n"; if (!cf_with.empty()) c.extra += "  corrFuncWithColvar " + cf_with + "\n"; }
-    o["cf"] = cf; o["cf_len"] = cf_len; o["cf_stride"] = cf_stride; o["cf_norm"] = cf_norm; o["cf_with"] = cf_with;
+    bool cf_vel = cf && r.chance(0.35);   // velocity correlation function (finite-difference velocities) instead of the coordinate one
+    if (cf) { c.extra += std::string("  corrFunc on\n  corrFuncType ") + (cf_vel ? "velocity" : "coordinate") + "\n  corrFuncLength " + std::to_string(cf_len) + "\n  corrFuncStride " + std::to_string(cf_stride) + "\n  corrFuncNormalize " + (cf_norm ? "on" : "off") + "\n"; if (!cf_with.empty()) c.extra += "  corrFuncWithColvar " + cf_with + "\n"; }
+    o["cf"] = cf; o["cf_vel"] = cf_vel; o["cf_len"] = cf_len; o["cf_stride"] = cf_stride; o["cf_norm"] = cf_norm; o["cf_with"] = cf_with;
     jcv.push(o); cvs.push_back(c); ranges.push_back({lo, hi}); cvtext += c.config();
     sig += std::string("C") + (vel ? "v" : "") + (ft ? "t" : "") + (fa ? "a" : "") + (ra ? "R" : "") + (cf ? (cf_with.empty() ? "K" : "X") : "");
   }
@@ -143,7 +144,7 @@ RunResult run(J const &plan) {
   scenario_from_json(sc, ec, config, T);
   long freq = (long)sc.at("freq").as_int(1);
   std::vector<CvOut> cvo;
-  for (auto const &o : sc.at("cvout").a) { CvOut c; c.name = o.at("name").as_str(); c.periodic = o.at("periodic").as_bool(); c.vel = o.at("vel").as_bool(); c.ft = o.at("ft").as_bool(); c.fa = o.at("fa").as_bool(); c.runave = o.at("runave").as_bool(); c.ra_len = (int)o.at("ra_len").as_int(); c.ra_stride = (int)o.at("ra_stride").as_int(); c.cf = o.at("cf").as_bool(); c.cf_norm = o.at("cf_norm").as_bool(); c.cf_len = (int)o.at("cf_len").as_int(); c.cf_stride = (int)o.at("cf_stride").as_int(); c.cf_with = o.at("cf_with").as_str(); cvo.push_back(c); }
+  for (auto const &o : sc.at("cvout").a) { CvOut c; c.name = o.at("name").as_str(); c.periodic = o.at("periodic").as_bool(); c.vel = o.at("vel").as_bool(); c.ft = o.at("ft").as_bool(); c.fa = o.at("fa").as_bool(); c.runave = o.at("runave").as_bool(); c.ra_len = (int)o.at("ra_len").as_int(); c.ra_stride = (int)o.at("ra_stride").as_int(); c.cf = o.at("cf").as_bool(); c.cf_vel = o.at("cf_vel").as_bool(); c.cf_norm = o.at("cf_norm").as_bool(); c.cf_len = (int)o.at("cf_len").as_int(); c.cf_stride = (int)o.at("cf_stride").as_int(); c.cf_with = o.at("cf_with").as_str(); cvo.push_back(c); }
   SimRun sim(1);
   std::string prefix = "/simfs/w0/out";
   std::unique_ptr<Engine> e(new Engine(ec));
@@ -152,7 +153,7 @@ RunResult run(J const &plan) {
   std::map<std::string, BiasInfo> binfo;
   std::map<std::string, std::vector<Row>> rows;       // per output prefix
   std::map<std::string, std::vector<std::pair<long, double>>> series;   // per variable: (relative step, value) of every evaluated step of the current instance
-  std::map<std::string, std::map<std::string, std::vector<std::pair<long, double>>>> series_by_prefix;
+  std::map<std::string, std::map<std::string, std::vector<std::pair<long, double>>>> series_by_prefix, vseries_by_prefix;   // values, and finite-difference velocities (the harness's own)
   long last_step = -1; bool first_of_instance = true;
   std::set<std::string> errored;
   std::map<std::string, std::set<std::string>> slept;   // per instance: variables that were not evaluated at some evaluation
@@ -183,7 +184,11 @@ RunResult run(J const &plan) {
         if (co && co->fa) { row.col["fa_" + cv->name] = asleep ? NAN : r.cv_fa[(size_t)r.cv_off[k]]; row.order.push_back("fa_" + cv->name); }
         {
           auto &ser = series_by_prefix[wpre][cv->name];
-          if (!row.repeated) { ser.push_back({step - instance_first_step, asleep ? NAN : x}); series_abs[wpre][cv->name].push_back(step); }
+          if (!row.repeated) {
+            ser.push_back({step - instance_first_step, asleep ? NAN : x}); series_abs[wpre][cv->name].push_back(step);
+            double v = asleep || std::isnan(prev_val[cv->name]) ? NAN : have_prev ? wrapd(x - prev_val[cv->name], co && co->periodic) / ec.dt : 0.0;
+            vseries_by_prefix[wpre][cv->name].push_back({step - instance_first_step, v});
+          }
           else if (!ser.empty() && ser.back().first == step - instance_first_step && std::isnan(ser.back().second) && !asleep) ser.back().second = x;   // slept through the first evaluation of this step
         }
         k++;
@@ -357,8 +362,9 @@ RunResult run(J const &plan) {
     // time-correlation functions (coordinate type): C(t) = < xi_i(t0) xi_j(t0 + t) >, t = 0, s, 2s, ... L s
     for (auto const &c : cvo) {
       if (res.violation || !c.cf) continue;
-      auto const &sx = series_by_prefix[pre][c.name];
-      auto const &sy = c.cf_with.empty() ? sx : series_by_prefix[pre][c.cf_with];
+      auto &which = c.cf_vel ? vseries_by_prefix : series_by_prefix;
+      auto const &sx = which[pre][c.name];
+      auto const &sy = c.cf_with.empty() ? sx : which[pre][c.cf_with];
       if (sx.size() != sy.size()) continue;
       // sampled evaluations: all but the very first; asleep ones are not analysed
       std::vector<std::pair<double, double>> smp; std::vector<long> smp_rel; bool started = false, bad = false;
@@ -378,7 +384,7 @@ RunResult run(J const &plan) {
         frames++;
       }
       std::string ct; bool have = fs().get(pre + "." + c.name + ".corrfunc.dat", ct);
-      std::string kind = c.cf_with.empty() ? "auto" : "cross";
+      std::string kind = std::string(c.cf_with.empty() ? "auto" : "cross") + (c.cf_vel ? "/velocity" : "");
       if (!have) { if (frames > 0) res.fail("correlation_function", "file_missing/" + kind, pre.substr(pre.rfind('/') + 1) + "." + c.name + ".corrfunc.dat does not exist although " + std::to_string(frames) + " frames were due"); continue; }
       std::istringstream cs(ct); int j = 0;
       while (std::getline(cs, line) && !res.violation) {
@@ -388,7 +394,7 @@ RunResult run(J const &plan) {
         if (lag != (long)j * st) { res.fail("correlation_function", "lag/" + kind, c.name + ": point " + std::to_string(j) + " is labelled " + std::to_string(lag) + ", stride " + std::to_string(st)); break; }
         double want = frames ? acc[(size_t)j] / (double)frames : 0.0; if (c.cf_norm && frames) want = acc[(size_t)j] / acc[0];
         if (frames && !close_enough(v, want, 1e-10, 1e-12)) { res.fail("correlation_function", std::string("value/") + kind + (j == 0 ? "/zero_lag" : ""), c.name + (c.cf_with.empty() ? "" : " with " + c.cf_with) + ": C(" + std::to_string(lag) + ") written " + fmt_double(v) + ", average of xi_i(t0) xi_j(t0+t) over " + std::to_string(frames) + " frames " + fmt_double(want)); break; }
-        j++; corr_points++;
+        j++; corr_points++; if (c.cf_vel && frames) res.counters["probe.corrfunc_velocity_points_checked"]++;
       }
       if (!res.violation && frames > 0 && j != L + 1) res.fail("correlation_function", "point_count/" + kind, c.name + ": " + std::to_string(j) + " points written, " + std::to_string(L + 1) + " expected");
     }
@@ -405,7 +411,7 @@ RunResult run(J const &plan) {
     std::set<std::string> ts; for (auto const &op : plan.at("ops").a) if (op.at("op").as_str() == "addbias") ts.insert(op.at("tmpl").as_str());
     for (auto const &t : ts) res.features += (res.features.empty() ? "" : "+") + t;
     for (auto const &c : cvo) { if (c.runave) { res.features += "+runave"; break; } }
-    for (auto const &c : cvo) { if (c.cf) { res.features += c.cf_with.empty() ? "+corrfunc" : "+crosscorr"; break; } }
+    for (auto const &c : cvo) { if (c.cf) { res.features += std::string(c.cf_with.empty() ? "+corrfunc" : "+crosscorr") + (c.cf_vel ? "+velocity" : ""); break; } }
   }
   uint64_t fp = 1469598103934665603ULL; fp = fnv_u64((uint64_t)lines_checked, fp); fp = fnv_u64((uint64_t)values_checked, fp);
   res.fingerprint = fnv_u64(fp, res.fingerprint);
